@@ -371,13 +371,20 @@ func runSolver(ctx context.Context, sp solverSpec, text string, dir, base string
 		return solveResult{sp.name, "error", err.Error(), 0}
 	}
 	defer os.Remove(file)
-	argv := sp.argv(file, timeoutS, seed)
-	cctx, cancel := context.WithTimeout(ctx, time.Duration(timeoutS+2)*time.Second)
+	// the budget is CPU time (ulimit -t), so that a loaded machine does not turn proofs into
+	// timeouts; the wall-clock limits of the solver and of the context are five times as long
+	argv := sp.argv(file, 5*timeoutS, seed)
+	cctx, cancel := context.WithTimeout(ctx, time.Duration(5*timeoutS+2)*time.Second)
 	defer cancel()
 	start := time.Now()
-	cmd := exec.CommandContext(cctx, argv[0], argv[1:]...)
+	sh := append([]string{"-c", fmt.Sprintf("ulimit -t %d; exec \"$@\"", timeoutS+1), "sh"}, argv...)
+	cmd := exec.CommandContext(cctx, "sh", sh...)
 	out, _ := cmd.CombinedOutput()
 	dur := time.Since(start)
+	if ps := cmd.ProcessState; ps != nil && !ps.Exited() && cctx.Err() == nil && ctx.Err() == nil {
+		// killed by a signal (SIGXCPU/SIGKILL from the CPU limit)
+		return solveResult{sp.name, "timeout", "cpu limit", dur}
+	}
 	s := strings.TrimSpace(string(out))
 	first := s
 	for _, l := range strings.Split(s, "\n") {
